@@ -386,7 +386,7 @@ fn run_scenario(i: u64, rng: &mut Rng, rep: &mut Report, verbose: bool) {
 
 /// Fault enumeration: every cut point of every scenario's response stream.
 pub fn cuts(ctx: &Ctx) -> Report {
-    let n = ctx.n(60, 4_000);
+    let n = ctx.n(600, 200_000);
     let mut rep = par_cases(ctx, "cuts", n, ctx.secs(40, 900), |i, rng, rep| run_scenario(i, rng, rep, false));
     rep.exhaustive.push("for each generated scenario, every cut position 0..=B of its response byte stream".into());
     rep
@@ -483,7 +483,7 @@ fn run_write_case(i: u64, rng: &mut Rng, rep: &mut Report) {
 }
 
 pub fn write_errors(ctx: &Ctx) -> Report {
-    let n = ctx.n(2_000, 300_000);
+    let n = ctx.n(20_000, 10_000_000);
     par_cases(ctx, "write_errors", n, ctx.secs(15, 300), |i, rng, rep| run_write_case(i, rng, rep))
 }
 
@@ -570,7 +570,7 @@ fn run_drop_case(i: u64, rng: &mut Rng, rep: &mut Report) {
 }
 
 pub fn handle_drops(ctx: &Ctx) -> Report {
-    let n = ctx.n(1_000, 100_000);
+    let n = ctx.n(10_000, 5_000_000);
     par_cases(ctx, "handle_drops", n, ctx.secs(15, 200), |i, rng, rep| run_drop_case(i, rng, rep))
 }
 
